@@ -82,6 +82,12 @@ def put_num(grp, k, v, enc, hyper, rng):
     kw = {}
     if enc["chunk"] and a.ndim >= 1 and a.size > 0:
         kw = dict(chunks=tuple(max(1, s // 2) for s in a.shape), compression="gzip", shuffle=True)
+        flat = a.reshape(-1)
+        if a.dtype.kind in "iuf" and np.ascontiguousarray(a).tobytes() == flat[:1].tobytes() * a.size and rng.random() < 0.7:
+            # a constant array stored the way HDF5 stores it most compactly: the value is the dataset's FILL VALUE and no
+            # chunk is ever allocated (storage size 0) — a valid encoding that reads back as the constant
+            grp.create_dataset(k, shape=a.shape, dtype=a.dtype, chunks=kw["chunks"], fillvalue=flat[0])
+            return
     grp.create_dataset(k, data=a, dtype=a.dtype, **kw)
 
 
